@@ -1013,7 +1013,55 @@ def extract_establish_locking(repo, parents):
             "def establishChecks : List (String × Bool) := " + lean_list([f'({lean_str(a)}, {"true" if b else "false"})' for a, b in rows])]
 
 
-SECTIONS = [extract_establish_locking, extract_models, extract_pool, extract_timeouts, extract_schemes, extract_exception_maps, extract_h2, extract_unasync, extract_h1_reuse, extract_pool_locking]
+def extract_h2_reader(repo, parents):
+    """`_receive_events`: the test "are there events for my stream already?" and the network read it guards are one critical section of
+    the read lock - whoever waited for the lock while another request read its frames must see them instead of reading again."""
+    tree = _parse(repo, "httpcore/_async/http2.py")
+    fn = _find_func(tree, "_receive_events", cls="AsyncHTTP2Connection")
+    ok = False
+    for w in ast.walk(fn):
+        if isinstance(w, (ast.AsyncWith, ast.With)) and [ast.unparse(i.context_expr) for i in w.items] == ["self._read_lock"]:
+            for n in ast.walk(w):
+                if isinstance(n, ast.If) and ast.unparse(n.test) == "stream_id is None or not self._events.get(stream_id)" \
+                        and "_read_incoming_data" in ast.unparse(n.body):
+                    ok = True
+    # and no read of the network outside the lock
+    reads_outside = False
+    for n in ast.walk(fn):
+        if isinstance(n, ast.Call) and ast.unparse(n.func) == "self._read_incoming_data":
+            inside = any(isinstance(w, (ast.AsyncWith, ast.With)) and [ast.unparse(i.context_expr) for i in w.items] == ["self._read_lock"]
+                         and any(n is d for d in ast.walk(w)) for w in ast.walk(fn))
+            if not inside:
+                reads_outside = True
+    return ["/-- `_receive_events`: `if stream_id is None or not self._events.get(stream_id):` guards `_read_incoming_data` *inside*",
+            "`async with self._read_lock:`; the network is not read outside that lock -/",
+            "def h2EventsRecheckedUnderReadLock : Bool := " + ("true" if ok and not reads_outside else "false")]
+
+
+def extract_backend_write(repo, parents):
+    tree = _parse(repo, "httpcore/_backends/sync.py")
+    fn = _find_func(tree, "write", cls="SyncStream")
+    loops = [n for n in ast.walk(fn) if isinstance(n, ast.While)]
+    ok = False
+    if len(loops) == 1 and ast.unparse(loops[0].test) == "buffer" and not loops[0].orelse:
+        body = [ast.unparse(x) for x in loops[0].body if "settimeout" not in ast.unparse(x)]
+        ok = body == ["n = self._sock.send(buffer)", "buffer = buffer[n:]"]
+    # nothing but the empty-buffer shortcut and the loop touches the socket
+    other = [ast.unparse(n) for n in ast.walk(fn) if isinstance(n, ast.Call) and ast.unparse(n.func).startswith("self._sock.")
+             and ast.unparse(n.func) not in ("self._sock.settimeout", "self._sock.send")]
+    return ["/-- `SyncStream.write`: `while buffer: n = self._sock.send(buffer); buffer = buffer[n:]` and no other use of the socket -/",
+            "def syncWriteLoopShape : Bool := " + ("true" if ok and not other else "false")]
+
+
+def extract_life(repo, parents):
+    import lifetrans
+    try:
+        return lifetrans.translate(lambda rel: _parse(repo, rel))
+    except lifetrans.ExtractError as e:
+        raise ExtractError(str(e))
+
+
+SECTIONS = [extract_establish_locking, extract_models, extract_pool, extract_timeouts, extract_schemes, extract_exception_maps, extract_h2, extract_unasync, extract_h1_reuse, extract_pool_locking, extract_life, extract_backend_write, extract_h2_reader]
 
 
 def generate(repo):
@@ -1021,6 +1069,7 @@ def generate(repo):
     out = []
     out.append("-- GENERATED by harness/extract.py from the current source tree. Do not edit.")
     out.append("import HttpcoreModel.Basic")
+    out.append("import HttpcoreModel.LifeBase")
     out.append("namespace Httpcore.Gen")
     out.append("open Httpcore")
     out.append("")
